@@ -474,7 +474,7 @@ func (s *Scheduler) run(emitter Emitter, freq time.Duration) {
 				}
 				// With continueOnError, mark invalid directly dependent jobs,
 				// append non-sentinel errors, and continue the scheduler loop.
-				if !errors.Is(err, errJobInvalid) {
+				if err != errJobInvalid {
 					s.err = multierr.Append(s.err, err)
 				}
 				for _, consumer := range job.consumers {
